@@ -427,6 +427,11 @@ func (m *e1Machine) Close() *pt.Violation {
 		return nil
 	}
 	m.w.CloseSyncs()
+	if m.oracles["elements"] {
+		if v := m.checkElements(pt.Action{Op: "closure"}); v != nil {
+			return v
+		}
+	}
 	if m.oracles["snapresume"] {
 		if v := m.snapResume(); v != nil {
 			return v
